@@ -71,8 +71,8 @@ func main() {
 	r := evidence.New("C16", "exploration")
 	r.Rule("case = (2-4 registry hosts out of a pool incl. same name/different port, each with own credential {user+password, +refresh token, refresh only, static access token, wrong password, none}, " +
 		"scheme {Basic, Bearer, open, unknown}, optionally redirecting (301/302/307/308, all paths or blobs, before or after authentication) to another registry or to a blob-store host with or without credentials of its own, realm on {own host, foreign token host (possibly shared), another registry's host}; one auth.Client with cache flavour {none, NewCache, NewSingleContextCache}, ForceAttemptOAuth2 on/off). " +
-		"Repository names include host:port/ prefixes and several colons (scope type ends at the first colon, actions start after the last). seq: history of 8-30 ops (requests GET/HEAD/POST/PUT/DELETE/ping/catalog/mount with scope hints {none, exact, oddly written, superset, extra repo, for another host, global}, token expiry, scheme change, realm move). " +
-		"conc: warm-up, then rounds of groups of identical cold requests released together with background traffic to other hosts; the token endpoint or the credential helper is held until all entered Cache.Set, then nobody / the fetch owner (once or twice in a row) / a waiter has its context ended by the harness with context.Canceled or context.DeadlineExceeded (manual contexts, no wall clock); plus shared-context rounds (6-12 concurrent requests for different repositories under ONE context whose 3/5/6 hints were appended successively, first 401s delivered together), late-join probes (L held inside the fetch, waiter W cancelled and returned, R seen inside Once.Do while the fetch is still held: one fetch and L's token are demanded), unsynchronised storms and, for the single-context cache, probes of 3-8 concurrent requests with different scopes to one host that enter the host-keyed Cache.Set together (spin barrier in the hook). " +
+		"Repository names include host:port/ prefixes and several colons (scope type ends at the first colon, actions start after the last). seq: the caller uses fresh requests, or one http.Header value for all its requests, or clones and re-addresses its previous *http.Request; history of 8-30 ops (requests GET/HEAD/POST/PUT/DELETE/ping/catalog/mount with scope hints {none, exact, oddly written, superset, extra repo, for another host, global}, token expiry, scheme change, realm move). " +
+		"conc: warm-up, then rounds of groups of identical cold requests released together with background traffic to other hosts; the token endpoint or the credential helper is held until all entered Cache.Set, then nobody / the fetch owner (once or twice in a row) / a waiter has its context ended by the harness with context.Canceled or context.DeadlineExceeded (manual contexts, no wall clock); plus cancelled-caller probes (1-3 requests whose context ends in the hook on entering Cache.Set, then a live request for the same key that must complete; refuted by goroutine dumps, not by time), shared-context rounds (6-12 concurrent requests for different repositories under ONE context whose 3/5/6 hints were appended successively, first 401s delivered together), late-join probes (L held inside the fetch, waiter W cancelled and returned, R seen inside Once.Do while the fetch is still held: one fetch and L's token are demanded), unsynchronised storms and, for the single-context cache, probes of 3-8 concurrent requests with different scopes to one host that enter the host-keyed Cache.Set together (spin barrier in the hook). " +
 		"Every request at the innermost transport is scanned for every secret (raw, base64, form/query-decoded); every returned response is matched with the registry model's last answer. " +
 		"distinct = hash(flavour, force, per-registry (scheme, realm kind, credential kind), op / round shapes); non-trivial = at least one send happened while the client held a secret or token of another host, and (seq) a cached token was presented by a request other than the one that fetched it, or the flavour is none, " +
 		"(conc) at least one group had >= 2 live requests and its token fetch or credential lookup was held while all of them were inside Cache.Set (for flavour none: all held at once)")
@@ -182,26 +182,30 @@ type reqSpec struct {
 var lastEnv *env
 
 type env struct {
-	sendBar    atomic.Pointer[sendBarrier]
-	colonRepos bool
-	probe      atomic.Pointer[barrier]
-	caseIdx    int
-	rng        *rand.Rand
-	phase      string
-	flavour    string
-	force      bool
-	world      *authmodel.World
-	regs       []*regSpec
-	client     *auth.Client
-	corrN      atomic.Int64
-	res        *worker.Result
-	resMu      sync.Mutex
-	gate       *gate
-	hooks      atomic.Int64
-	repos      []string
-	ops        []string // op log for witnesses
-	violN      int
-	stop       bool // a violation was recorded: stop the case
+	callerMode   int
+	callerHeader http.Header
+	prevReq      *http.Request
+	hookCancel   atomic.Pointer[cancelInHook]
+	sendBar      atomic.Pointer[sendBarrier]
+	colonRepos   bool
+	probe        atomic.Pointer[barrier]
+	caseIdx      int
+	rng          *rand.Rand
+	phase        string
+	flavour      string
+	force        bool
+	world        *authmodel.World
+	regs         []*regSpec
+	client       *auth.Client
+	corrN        atomic.Int64
+	res          *worker.Result
+	resMu        sync.Mutex
+	gate         *gate
+	hooks        atomic.Int64
+	repos        []string
+	ops          []string // op log for witnesses
+	violN        int
+	stop         bool // a violation was recorded: stop the case
 }
 
 var hostPool = []string{"reg-a.test", "reg-b.test:5000", "reg-b.test", "reg-c.test:443", "localhost:5000", "10.0.0.7:8443", "registry.example.org"}
@@ -391,6 +395,9 @@ func newEnv(rng *rand.Rand, phase string, seed int64, i int, res *worker.Result)
 		e.client.ClientID = "verif-client"
 	}
 	e.client.Credential = e.credential
+	if phase == "seq" {
+		e.callerMode = []int{0, 0, 1, 2}[rng.IntN(4)]
+	}
 	return e
 }
 
@@ -653,8 +660,38 @@ func (e *env) do(sp *reqSpec, wrap func(ctx context.Context, corr int) context.C
 		e.violate("harness:new-request", err.Error(), nil)
 		return outcome{corr: corr, spec: sp, err: err}
 	}
+	// how the caller treats its request objects (sequential phase only): fresh
+	// ones, one http.Header value shared by all its requests, or the previous
+	// *http.Request cloned and re-addressed
+	switch e.callerMode {
+	case 1:
+		if e.callerHeader == nil {
+			e.callerHeader = http.Header{"Accept": {"application/vnd.oci.image.manifest.v1+json"}}
+		}
+		req.Header = e.callerHeader
+	case 2:
+		if e.prevReq != nil {
+			if sp.Body == nil {
+				r2 := e.prevReq.Clone(ctx)
+				r2.Method, r2.URL, r2.Host = req.Method, req.URL, req.Host
+				r2.Body, r2.GetBody, r2.ContentLength = nil, nil, 0
+				req = r2
+			} else {
+				req.Header = e.prevReq.Header
+			}
+		}
+		e.prevReq = req
+	}
 	req.Header.Set(authmodel.CorrHeader, fmt.Sprint(corr))
 	resp, err := e.client.Do(req)
+	if e.callerMode != 0 {
+		e.count("requests_with_reused_caller_header_or_request", 1)
+		if req.Header.Get("Authorization") != "" {
+			// not judged by itself (the statement speaks of what is sent); the next
+			// request made from this header / request object is judged at the wire
+			e.count("caller_request_gained_authorization_header", 1)
+		}
+	}
 	o := outcome{corr: corr, spec: sp, resp: resp, err: err}
 	if resp != nil {
 		o.respID = resp.Header.Get("X-Verif-Resp")
@@ -826,6 +863,9 @@ func installHook(e *env) {
 			}
 			if b := e.probe.Load(); b != nil && key == b.key {
 				b.arrive()
+			}
+			if c := e.hookCancel.Swap(nil); c != nil {
+				c.ctx.end(c.err) // the caller's context ends between the registry's 401 and the start of the fetch
 			}
 		}
 	}
@@ -1065,6 +1105,14 @@ func runConc(e *env, i int) {
 			}
 			continue
 		}
+		if e.flavour != "none" && rng.IntN(6) == 0 {
+			s, ok := cancelledCallerProbe(e, rd)
+			shape = append(shape, s)
+			if ok {
+				nt = true
+			}
+			continue
+		}
 		if e.flavour != "none" && rng.IntN(5) == 0 {
 			s, ok := lateJoinProbe(e, rd)
 			shape = append(shape, s)
@@ -1275,6 +1323,107 @@ func head(s string, n int) string {
 		return s[:n]
 	}
 	return s
+}
+
+type cancelInHook struct {
+	ctx *manualCtx
+	err error
+}
+
+// onlyLibraryGoroutineIsParkedInOnce inspects a goroutine dump: true when exactly
+// one goroutine is inside the auth client / syncutil at all and it waits in the
+// select of syncutil.Once.Do. Nobody else can then ever hand it the slot.
+func onlyLibraryGoroutineIsParkedInOnce() bool {
+	buf := make([]byte, 2<<20)
+	dump := string(buf[:runtime.Stack(buf, true)])
+	n, parked := 0, false
+	for _, blk := range strings.Split(dump, "\n\n") {
+		if !strings.Contains(blk, "/registry/remote/auth.") && !strings.Contains(blk, "/internal/syncutil.") {
+			continue
+		}
+		n++
+		lines := strings.SplitN(blk, "\n", 3)
+		// state line, then the innermost frame
+		parked = len(lines) >= 2 && strings.Contains(lines[0], "[select") && strings.Contains(lines[1], "syncutil.(*Once).Do(")
+	}
+	return n == 1 && parked
+}
+
+// cancelledCallerProbe: 1-3 requests whose context ends exactly when they enter
+// Cache.Set (in the hook, i.e. after the registry's 401 and before the token
+// fetch starts) - such a caller may find the fetch slot free - are followed by a
+// request N with a live context for the same host / scheme / scope key. N has
+// valid credentials and must end with the registry's answer. If instead N is the
+// only goroutine inside the library and is parked in Once.Do's select (seen on
+// two goroutine dumps, nothing in flight in the world), nothing can ever wake
+// it before its own context ends: bounded progress is refuted logically.
+func cancelledCallerProbe(e *env, rd int) (string, bool) {
+	rng := e.rng
+	reg := -1
+	for _, k := range shuffled(rng, e.regIdx()) {
+		rs := e.regs[k]
+		scheme := e.world.Registry(rs.Host).Scheme
+		if !e.valid(rs) || rs.redirects || scheme != authmodel.SchemeBasic && scheme != authmodel.SchemeBearer {
+			continue
+		}
+		if scheme == authmodel.SchemeBasic && rs.touched || rs.CredKind == "access" && rs.touched {
+			continue
+		}
+		reg = k
+		break
+	}
+	if reg < 0 {
+		return "cancelled-caller-none", false
+	}
+	rs := e.regs[reg]
+	sp := e.genRequest(reg, fmt.Sprintf("gone%d/%s", rd, e.repos[rng.IntN(len(e.repos))]))
+	nGone := 1 + rng.IntN(3)
+	e.ops = append(e.ops, fmt.Sprintf("cancelled-caller probe: %d x context ends on entering Cache.Set, then a live request: %s %s%s", nGone, sp.Method, rs.Host, sp.Path))
+	for j := 0; j < nGone; j++ {
+		endErr := []error{context.Canceled, context.Canceled, context.DeadlineExceeded}[rng.IntN(3)]
+		o := e.do(sp, func(ctx context.Context, corr int) context.Context {
+			c := newManualCtx(ctx)
+			e.hookCancel.Store(&cancelInHook{ctx: c, err: endErr})
+			return c
+		})
+		e.hookCancel.Store(nil)
+		e.judge(o, false, "cancelled-caller probe: caller whose context ended on entering Cache.Set")
+	}
+	var nctx atomic.Pointer[manualCtx]
+	done := make(chan outcome, 1)
+	go func() {
+		done <- e.do(sp, func(ctx context.Context, corr int) context.Context {
+			c := newManualCtx(ctx)
+			nctx.Store(c)
+			return c
+		})
+	}()
+	seen := 0
+	for {
+		select {
+		case o := <-done:
+			e.judge(o, true, fmt.Sprintf("cancelled-caller probe: live request after %d callers whose context ended on entering Cache.Set", nGone))
+			rs.touched, rs.lastSpec = true, sp
+			e.count("cancelled_caller_probes", 1)
+			return fmt.Sprintf("gone%d", nGone), true
+		case <-time.After(2 * time.Millisecond):
+		}
+		if e.world.Inflight() == 0 && onlyLibraryGoroutineIsParkedInOnce() {
+			seen++
+		} else {
+			seen = 0
+		}
+		if seen >= 2 {
+			break
+		}
+	}
+	e.violate("request-never-ends:fetch-slot-lost-to-cancelled-caller",
+		fmt.Sprintf("cancelled-caller probe on %s (%s cache): after %d request(s) whose context ended between the registry's 401 and the start of the token fetch, a request with valid credentials and a live context is parked in syncutil.Once.Do; it is the only goroutine inside the library and no fetch is in flight, so nothing can wake it before its own context ends", rs.Host, e.flavour, nGone),
+		map[string]any{"request": sp, "host": rs.Host})
+	nctx.Load().end(context.Canceled) // set it free
+	<-done
+	e.count("cancelled_caller_probes", 1)
+	return "gone-stuck", false
 }
 
 // sendBarrier makes the members of a shared-context round receive their first
